@@ -31,8 +31,15 @@ XY_OMIT_OK = {"polar", "intersection", "trilateration", "traverse", "azdist", "c
 
 @st.composite
 def case(draw):
-    net = draw(gen_net.determined_network(noise=0))
-    mode = draw(st.sampled_from(["exact", "small", "big", "omit", "omit"]))
+    pure = draw(st.integers(0, 7)) == 0
+    if pure:
+        # a pure total-station survey (direction + slope distance + zenith angle, nothing else): the approximate
+        # coordinates can only come from the slope distances reduced by their own zenith angles
+        net = draw(gen_net.determined_network(noise=0, dims="3d", only_recipe="polar3d"))
+        net["pure_polar3d"] = True
+    else:
+        net = draw(gen_net.determined_network(noise=0))
+    mode = draw(st.sampled_from(["exact", "small", "big", "omit", "omit"] if not pure else ["omit"]))
     alg = draw(st.sampled_from(ALGS))
     given_ids = set(p["id"] for p in net["points"] if p.get("xy") == "fix" or p.get("z") == "fix")
     resolved = set(given_ids)
@@ -202,11 +209,20 @@ def oracle(c, stats):
     if not gen_net.is_determined(net):
         stats.label("discarded_not_determined")
         return []
+    if gen_net.weak_geometry(net):
+        # gama's documented protection: a coordinate with an a priori standard deviation above 10 m is removed as
+        # indeterminable (e.g. a point 9 mm off the line of three collinear stations of its distances)
+        stats.label("discarded_weak_geometry")
+        return []
     mode = c["mode"]
     omitted = any((p["xy"] == "adj" and not p["give_xy"]) or (p["z"] == "adj" and not p["give_z"]) for p in net["points"])
     if mode == "omit" and not omitted:
         mode = "exact"
     stats.label("approx=" + mode, "dims=" + net["dims"], "alg=" + c["alg"])
+    if net.get("steep"):
+        stats.label("steep_terrain")
+    if net.get("pure_polar3d"):
+        stats.label("pure_polar3d")
     if any(o.get("from_dh") is not None for cl in net["clusters"] if cl["k"] == "obs" for o in cl["obs"]):
         stats.label("with_dh")
     for p in net["points"]:
